@@ -247,14 +247,27 @@ func (c cfg) script() (string, error) {
 		if !strings.HasPrefix(c.arg, "n:") {
 			return "", fmt.Errorf("%s needs n:", c.fn)
 		}
-		n, err := strconv.ParseInt(c.arg[2:], 10, 64)
+		// n:<n>[/<extra field or tag>...]  (the extra names are top/bottom's fieldsAndTags arguments)
+		parts := strings.Split(c.arg[2:], "/")
+		n, err := strconv.ParseInt(parts[0], 10, 64)
 		if err != nil {
 			return "", err
 		}
 		if c.fn == "movingAverage" {
+			if len(parts) > 1 {
+				return "", fmt.Errorf("movingAverage takes no extra names")
+			}
 			fmt.Fprintf(&b, "    |movingAverage('%s', %d)\n", field, n)
 		} else {
-			fmt.Fprintf(&b, "    |%s(%d, '%s')\n", c.fn, n, field)
+			extra := ""
+			for _, e := range parts[1:] {
+				name, err := kit.Unesc(e)
+				if err != nil {
+					return "", err
+				}
+				extra += ", '" + strings.ReplaceAll(name, "'", "\\'") + "'"
+			}
+			fmt.Fprintf(&b, "    |%s(%d, '%s'%s)\n", c.fn, n, field, extra)
 		}
 	case "elapsed":
 		if !strings.HasPrefix(c.arg, "u:") {
